@@ -595,6 +595,13 @@ def gen_operand_case(ctx):
 
 
 def build_rhs(rhs, made):
+    r = _build_rhs(rhs, made)
+    if type(r) is str and rhs[0] in ('str_bin', 'str_hex', 'str_oct'):
+        return util._str_operand(r, rhs[1])         # what was done with this text before (util.STR_HISTORY)
+    return r
+
+
+def _build_rhs(rhs, made):
     kind, bits, style = rhs
     L = len(bits)
     if kind == 'str_bin':
@@ -1101,9 +1108,14 @@ def judge_same_file(ctx, c):
 def gen_same_file(ctx):
     rng = ctx.rng
     nbytes = rng.choice([2, 5, 8, 300])
+    big = rng.random() < 0.06
+    if big:
+        nbytes = rng.choice([65537, 65536 + 4096, 2 * 65536 + 5])           # longer than 64 KiB: a prefix of it may stay mapped
     bits = util.content(rng, nbytes * 8)
     total = nbytes * 8
     n = rng.choice([1, 7, 8, 12, total - 1, total - 8])
+    if big:
+        n = rng.choice([524289, 524288 + 8, total - 8, total - 1, 524288])
     views = [[rng.choice(util.CLASS_NAMES), None, None, 'name'], [rng.choice(IMMUTABLE), None, n, 'name'], [rng.choice(IMMUTABLE), None, total, 'name'],
              [rng.choice(util.CLASS_NAMES), 0, n, 'handle'], [rng.choice(IMMUTABLE), None, n, 'bytes'], [rng.choice(IMMUTABLE), 8, None, 'name'],
              [rng.choice(IMMUTABLE), None, None, 'handle'], [rng.choice(IMMUTABLE), None, rng.choice([n, max(n - 1, 0)]), 'name']]
